@@ -349,7 +349,25 @@ func (g *storeGen) idiom() []Step {
 	deq := func(ttl time.Duration) Step {
 		return Step{Op: "dequeue", Route: route, Target: target, Batch: 1, TTL: ttl}
 	}
-	switch rapid.SampledFrom([]string{"dead", "acked", "expired", "mixed_batch", "fill", "prune_pass", "bulk", "newer_rows", "staggered", "staggered", "extended", "attempts", "buckets"}).Draw(t, "i.kind") {
+	switch rapid.SampledFrom([]string{"dead", "acked", "expired", "mixed_batch", "fill", "prune_pass", "bulk", "newer_rows", "staggered", "staggered", "extended", "attempts", "buckets", "foreign_backlog"}).Draw(t, "i.kind") {
+	case "foreign_backlog":
+		// a long ready backlog of one route ahead (by due time) of a few messages of another, then batch
+		// dequeues for the other route, with and without a target: it gets min(batch, its ready messages)
+		n := rapid.SampledFrom([]int{17, 33, 41, 90}).Draw(t, "i.fbn")
+		other := genRoutes[(indexOf(genRoutes, route)+1)%len(genRoutes)]
+		out := []Step{{Op: "enqueue_batch", Bulk: n, Items: []EnvSpec{{ID: "new", Route: other, Target: target}}}, {Op: "advance", D: time.Millisecond}}
+		for k := rapid.IntRange(1, 4).Draw(t, "i.fbk"); k > 0; k-- {
+			out = append(out, enq())
+		}
+		for k := rapid.IntRange(1, 3).Draw(t, "i.fbpolls"); k > 0; k-- {
+			d := deq(30 * time.Second)
+			d.Batch = rapid.SampledFrom([]int{2, 2, 3, 5}).Draw(t, "i.fbbatch")
+			if rapid.Bool().Draw(t, "i.fbanytarget") {
+				d.Target = ""
+			}
+			out = append(out, d)
+		}
+		return out
 	case "buckets":
 		// more (route, target) buckets with a backlog than a backlog summary lists: a straggler on a quiet
 		// route (optionally due later than everything else), then 9-13 busier buckets, then the statistics
@@ -451,4 +469,13 @@ func (g *storeGen) idiom() []Step {
 		}
 		return []Step{{Op: "enqueue_batch", Bulk: n, Items: []EnvSpec{{ID: "new", Route: route, Target: target}}}, st}
 	}
+}
+
+func indexOf(xs []string, x string) int {
+	for i, v := range xs {
+		if v == x {
+			return i
+		}
+	}
+	return 0
 }
